@@ -28,6 +28,11 @@ func (g *Gen) libApp(name string, argSorts []string, resSort string, args []Term
 				g.libDep(dep)
 			}
 			for _, a := range ax.axioms {
+				for strings.Contains(a, "@lit:") {
+					i := strings.Index(a, "@lit:")
+					j := strings.Index(a[i+5:], "@")
+					a = a[:i] + g.lit(a[i+5:i+5+j]) + a[i+5+j+1:]
+				}
 				g.declare(a)
 			}
 		}
@@ -82,6 +87,8 @@ var libSigs = map[string]libSig{
 	"unicode.IsLetter":  {[]string{"Int"}, "Bool"},
 	"unicode.IsSpace":   {[]string{"Int"}, "Bool"},
 	"itoa":              {[]string{"Int"}, "Str"},
+	"strlex":            {[]string{}, "Bool"},
+	"digdots":           {[]string{"Str"}, "Bool"},
 }
 
 type libAx struct {
@@ -98,12 +105,28 @@ var libAxioms = map[string]libAx{
 	}},
 	"numval": {[]string{"isdigits"}, []string{
 		"(assert (forall ((s Str)) (! (=> (L_isdigits s) (>= (L_numval s) 0)) :pattern ((L_numval s)))))",
+		// a digit string has value 0 iff all its digits are 0; in particular its first digit is 0
+		"(assert (forall ((s Str)) (! (=> (and (L_isdigits s) (= (L_numval s) 0)) (= (str_at s 0) 48)) :pattern ((L_numval s)))))",
+		"(assert (forall ((s Str)) (! (=> (and (L_isdigits s) (= (str_len s) 1) (= (str_at s 0) 48)) (= (L_numval s) 0)) :pattern ((L_numval s)))))",
+		"(assert (forall ((s Str)) (! (=> (and (L_isdigits s) (not (= (str_at s 0) 48))) (>= (L_numval s) 1)) :pattern ((L_numval s)))))",
+	}},
+	"digdots": {[]string{"isdigits", "strings.Split"}, []string{
+		// digdots(s): every byte of s is an ASCII digit or '.'; splitting such a string at "." yields digit strings (or empty ones)
+		"(assert (forall ((s Str) (i Int)) (! (=> (and (L_digdots s) (<= 0 i) (< i (len_L_Str (L_strings_Split s @lit:.@))) (> (str_len (select (arr_L_Str (L_strings_Split s @lit:.@)) i)) 0)) (L_isdigits (select (arr_L_Str (L_strings_Split s @lit:.@)) i))) :pattern ((select (arr_L_Str (L_strings_Split s @lit:.@)) i)))))",
+	}},
+	"strlex": {nil, []string{
+		// Go's string order is lexicographic on bytes: the first byte decides when it differs
+		"(assert (forall ((a Str) (b Str)) (! (=> (and (> (str_len a) 0) (> (str_len b) 0) (< (str_at a 0) (str_at b 0))) (str_lt a b)) :pattern ((str_lt a b)))))",
+		"(assert (forall ((a Str) (b Str)) (! (=> (and (str_lt a b) (> (str_len a) 0)) (and (> (str_len b) 0) (<= (str_at a 0) (str_at b 0)))) :pattern ((str_lt a b)))))",
+		"(assert (forall ((a Str) (b Str)) (! (=> (and (= (str_len a) 1) (= (str_len b) 1) (= (str_at a 0) (str_at b 0))) (= a b)) :pattern ((str_lt a b)))))",
 	}},
 	"strconv.Atoi#0": {[]string{"strconv.Atoi#1"}, []string{
 		"(assert (forall ((s Str)) (! (inr64 (L_strconv_Atoi_0 s)) :pattern ((L_strconv_Atoi_0 s)))))",
 		// failure returns 0 (documented: the zero value on syntax error; range errors return max/min – we only claim the syntax case through err)
 	}},
-	"strconv.Atoi#1": {nil, []string{
+	"strconv.Atoi#1": {[]string{"strconv.Atoi#0", "numval"}, []string{
+		// a successful Atoi of a digit string returns its value
+		"(assert (forall ((s Str)) (! (=> (and (L_isdigits s) (= (L_strconv_Atoi_1 s) err_nil)) (= (L_strconv_Atoi_0 s) (L_numval s))) :pattern ((L_strconv_Atoi_1 s)))))",
 		"(assert (forall ((s Str)) (! (=> (= (str_len s) 0) (not (= (L_strconv_Atoi_1 s) err_nil))) :pattern ((L_strconv_Atoi_1 s)))))",
 	}},
 	"strings.TrimSpace": {[]string{"isspace"}, []string{
